@@ -106,6 +106,7 @@ class System(GenericBackendSystem):
 
     def do_reset(self, _):
         self.stop_tasks()
+        self._cancel_timers()
         self.set_default()
 
     def stop_tasks(self):
